@@ -389,6 +389,22 @@ func (b *assignmentBuilder) isStructFieldAccessible(structNode bmodel.Node, leaf
 
 }
 
+// typeName returns the expression that denotes the type t in the generated file: types of
+// the current package are unqualified, types of other packages are qualified with the name
+// the setup file imports the package by or, when it does not import it, with the package's
+// own name (the import is then added while optimizing imports).
+func (b *assignmentBuilder) typeName(t types.Type) string {
+	return types.TypeString(t, func(pkg *types.Package) string {
+		if !b.isExternalPkg(pkg) {
+			return ""
+		}
+		if name, ok := b.imports.LookupName(pkg.Path()); ok {
+			return name
+		}
+		return pkg.Name()
+	})
+}
+
 // isExternalPkg returns true if the given package is not the current package.
 func (b *assignmentBuilder) isExternalPkg(pkg *types.Package) bool {
 	if pkg == nil {
@@ -555,20 +571,20 @@ func (b *assignmentBuilder) sliceToSlice(lhs, rhs bmodel.Node) (a gmodel.Assignm
 			a = gmodel.SliceAssignment{
 				LHS: lhs.AssignExpr(),
 				RHS: rhs.AssignExpr(),
-				Typ: "[]" + lhsElem.String(),
+				Typ: "[]" + b.typeName(lhsElem),
 			}
 		} else {
 			a = gmodel.SliceLoopAssignment{
 				LHS: lhs.AssignExpr(),
 				RHS: rhs.AssignExpr(),
-				Typ: "[]" + b.imports.TypeName(lhsElem),
+				Typ: "[]" + b.typeName(lhsElem),
 			}
 		}
 		return
 	}
 
 	if b.opts.Typecast && types.ConvertibleTo(rhsElem, lhsElem) {
-		cast := b.imports.TypeName(lhsElem)
+		cast := b.typeName(lhsElem)
 		if util.IsPtr(lhsElem) {
 			// A conversion to a pointer type must be parenthesized: (*T)(e).
 			cast = "(" + cast + ")"
@@ -576,7 +592,7 @@ func (b *assignmentBuilder) sliceToSlice(lhs, rhs bmodel.Node) (a gmodel.Assignm
 		a = gmodel.SliceTypecastAssignment{
 			LHS:  lhs.AssignExpr(),
 			RHS:  rhs.AssignExpr(),
-			Typ:  "[]" + b.imports.TypeName(lhsElem),
+			Typ:  "[]" + b.typeName(lhsElem),
 			Cast: cast,
 		}
 		return
